@@ -1,6 +1,7 @@
 package executor
 
 import (
+	"context"
 	"time"
 
 	rt "github.com/alpacahq/marketstore/v4/internal/zzverifrt"
@@ -72,4 +73,94 @@ func VerifC07WriteReturns() {
 	rt.Assert(err == nil, "query-without-error")
 	rows = vRowsOf(cs, false)
 	rt.Assert(len(rows) == 2 && rows[1].sec == t0+86400 && rows[1].v == v, "durable-when-the-write-returns")
+}
+
+// vSender is a ReplicationSender whose Send runs a hook once: FlushCommandsToWAL calls Send in the
+// middle of a flush (transaction synced to the WAL, primary files not yet written), which gives the
+// harness - in the model and natively alike - a point inside a running flush at which a second
+// client can act.
+type vSender struct {
+	hook func()
+	done bool
+}
+
+func (s *vSender) Run(_ context.Context) {}
+
+func (s *vSender) Send(_ []byte) {
+	if s.hook != nil && !s.done {
+		s.done = true
+		s.hook()
+	}
+}
+
+// C07 (b): two clients and the real background WAL writer loop (SyncWAL). Client A's write and flush
+// request are queued when the loop starts; while the loop is in the middle of A's flush, client B
+// queues its write command and its flush request. When the loop has answered B's request, B's
+// command must have been flushed: nothing of it may be left in the write channel, and a query sees
+// B's row.
+func VerifC07ConcurrentWriter() {
+	rt.Opt("clock", 1)
+	root := rt.TempDir()
+	defer rt.Cleanup()
+	e := vStart(root, 7)
+	ka, kb := io.NewTimeBucketKey("AAA/1D/OHLCV"), io.NewTimeBucketKey("BBB/1D/OHLCV")
+	t0 := time.Date(2020, 3, 2, 0, 0, 0, 0, time.UTC).Unix()
+	rt.Assert(vWriteRows(e, ka, []int64{t0}, []int32{1}) == nil, "write-accepted")
+	rt.Assert(vWriteRows(e, kb, []int64{t0}, []int32{1}) == nil, "write-accepted")
+	rt.Assert(e.wf.CreateCheckpoint() == nil, "checkpoint-ok")
+	va, vb := rt.Int32("va"), rt.Int32("vb")
+	sender := &vSender{}
+	e.wf.ReplicationSender = sender
+	haveWALWriter = true
+	// a client = queue the flush request (a channel the loop answers on), then the write command
+	// (WriteCSM's own RequestFlush sees the queued request and returns: the client then waits on its channel)
+	client := func(tbk *io.TimeBucketKey, v int32) chan struct{} {
+		f := make(chan struct{}, 1)
+		e.wf.txnPipe.flushChannel <- f
+		if err := vWriteRows(e, tbk, []int64{t0 + 86400}, []int32{v}); err != nil {
+			panic("harness: queued write rejected: " + err.Error())
+		}
+		return f
+	}
+	fa := client(ka, va)
+	var fb chan struct{}
+	sender.hook = func() { fb = client(kb, vb) } // B arrives while A's flush is running
+	rt.Reach("entered")
+	check := func() {
+		rt.Assert(len(fa) == 1 && fb != nil && len(fb) == 1, "both-requests-answered")
+		rt.Reach("answered")
+		rt.Assert(len(e.wf.txnPipe.writeChannel) == 0, "answered-only-after-the-command-was-flushed")
+		cs, err := e.queryAll(kb)
+		rt.Assert(err == nil, "query-without-error")
+		rows := vRowsOf(cs, false)
+		rt.Assert(len(rows) == 2 && rows[1].sec == t0+86400 && rows[1].v == vb, "visible-to-a-query-started-after-the-return")
+	}
+	e.wf.walWaitGroup.Add(1)
+	if rt.Symbolic() {
+		rt.Opt("events", rt.Fix(rt.Int("timer_events", 0, 1)))
+		step := 0
+		rt.OnIdle(func() bool {
+			step++
+			if step == 1 {
+				check() // the loop is idle: it has answered every request it is going to answer
+				*e.wf.shutdownPending = true
+				return true
+			}
+			return false
+		})
+		e.wf.SyncWAL(500*time.Millisecond, 5*time.Minute, 1)
+		return
+	}
+	// native replay: the loop runs in its own goroutine; wait for B's answer, then check at once
+	done := make(chan struct{})
+	go func() {
+		e.wf.SyncWAL(10*time.Second, 5*time.Hour, 1)
+		close(done)
+	}()
+	for i := 0; i < 5000 && (fb == nil || len(fb) == 0); i++ {
+		time.Sleep(time.Millisecond)
+	}
+	check()
+	*e.wf.shutdownPending = true
+	<-done
 }
